@@ -89,6 +89,17 @@ mod proofs {
         assert!(fetch_locale_hydrate(cookie, Memo(accepted)).get() == want_h);
     }
 
+    /// "cookies enabled or not": the cookie is consulted exactly when the `cookie` feature is compiled in
+    /// AND the caller did not switch cookies off; otherwise a dummy signal holding `None` is used, so the
+    /// precedence above sees "no cookie"
+    #[kani::proof]
+    fn cookie_consulted_only_when_enabled() {
+        let feature: bool = kani::any();
+        let option: bool = kani::any();
+        assert!(cookie_consulted_context(feature, option) == (feature && option));
+        assert!(cookie_consulted_resolve(feature, option) == (feature && option));
+    }
+
     /// sub-context: first run cookie > explicit initial locale > parent; later runs initial > cookie > parent
     #[kani::proof]
     fn subcontext_order() {
